@@ -1,17 +1,36 @@
 //! C05 / C18: binary serializer harnesses.
 use crate::vnd::*;
+use rufsm::datamodel::{create_data_arc, Data, SourceCode};
+use rufsm::executable_content::*;
+use rufsm::fsm::*;
 use rufsm::serializer::default_protocol_reader::DefaultProtocolReader;
 use rufsm::serializer::default_protocol_writer::DefaultProtocolWriter;
+use rufsm::serializer::fsm_reader::FsmReader;
+use rufsm::serializer::fsm_writer::FsmWriter;
 use rufsm::serializer::protocol_reader::ProtocolReader;
 use rufsm::serializer::protocol_writer::ProtocolWriter;
+use std::collections::HashMap;
 
 pub fn run(name: &str) -> bool {
     match name {
         "h_c05_uint" => h_c05_uint(),
+        "h_c05_small" => h_c05_small(),
+        "h_c05_str" => h_c05_str(),
+        "h_c05_data" => h_c05_data(),
+        "h_c05_state" => h_c05_state(),
+        "h_c05_transition" => h_c05_transition(),
+        "h_c05_content" => h_c05_content(),
+        "h_c05_invoke" => h_c05_invoke(),
+        "h_c18_trunc" => h_c18_trunc(),
+        "h_c18_trunc_prim" => h_c18_trunc_prim(),
+        "h_c18_sink" => h_c18_sink(),
         _ => return false,
     }
     true
 }
+
+/// Known-finding ids (see /verif/known_findings.txt)
+pub const KF_STR_4096: u32 = 5002;
 
 /// for every u64: read_uint(write_uint(v)) == v, no error on either side, all written bytes consumed
 pub fn h_c05_uint() {
@@ -31,4 +50,580 @@ pub fn h_c05_uint() {
     vnd_check(505, r.has_error());
     vnd_obs(1, back);
     vnd_obs(2, buf.len() as u64);
+}
+
+/// u8 / usize / bool / option-string primitives and a sequence of two values (framing: the second value starts where the first ended)
+pub fn h_c05_small() {
+    let a = vnd_u8(1);
+    let b = vnd_bool(2);
+    let c = vnd_u32(3) as usize;
+    let some = vnd_bool(4);
+    let d = vnd_u64(5);
+    let mut w = DefaultProtocolWriter::new(Vec::<u8>::new());
+    w.write_u8(a);
+    w.write_boolean(b);
+    w.write_usize(c);
+    let os = if some { Some("x\u{e9}".to_string()) } else { None };
+    w.write_option_string(&os);
+    w.write_uint(d);
+    w.write_boolean(!b);
+    vnd_check(511, !w.has_error());
+    let buf: Vec<u8> = w.get_writer().clone();
+    let mut r = DefaultProtocolReader::new(&buf[..]);
+    let a2 = r.read_u8();
+    let b2 = r.read_boolean();
+    let c2 = r.read_usize();
+    let os2 = r.read_option_string();
+    let d2 = r.read_uint();
+    let nb2 = r.read_boolean();
+    vnd_check(512, !r.has_error());
+    vnd_cover(513);
+    vnd_check(513, a2 == a && b2 == b && c2 == c && d2 == d && nb2 == !b);
+    vnd_check(514, os2 == os);
+    vnd_obs(1, a2 as u64);
+    vnd_obs(2, c2 as u64);
+    vnd_obs(3, d2);
+}
+
+const STR_LENS: [usize; 10] = [0, 1, 2, 15, 16, 17, 255, 256, 4095, 4096];
+
+fn mk_string(len: usize, first: char, last: char, multibyte: u32) -> String {
+    // `len` is the byte length of the result
+    let mut s = String::new();
+    if len == 0 { return s; }
+    let mb = if multibyte == 1 { "\u{e9}" } else if multibyte == 2 { "\u{20ac}" } else if multibyte == 3 { "\u{1f600}" } else { "" };
+    let mut used = 0usize;
+    if len >= 1 { s.push(first); used += 1; }
+    if mb.len() > 0 && used + mb.len() + 1 <= len { s.push_str(mb); used += mb.len(); }
+    while used + 1 < len { s.push('a'); used += 1; }
+    if used < len { s.push(last); }
+    s
+}
+
+/// strings of boundary lengths with symbolic first/last ASCII char and an optional multi-byte char
+pub fn h_c05_str() {
+    let li = vnd_range(0, 9, 1) as usize;
+    let len = STR_LENS[li];
+    let first = vnd_char(2);
+    let last = vnd_char(3);
+    vnd_assume((first as u32) < 0x80 && (last as u32) < 0x80);
+    let mb = vnd_range(0, 3, 4);
+    let s = mk_string(len, first, last, mb);
+    let mut w = DefaultProtocolWriter::new(Vec::<u8>::new());
+    w.write_str(s.as_str());
+    w.write_uint(7);
+    let buf: Vec<u8> = w.get_writer().clone();
+    let mut r = DefaultProtocolReader::new(&buf[..]);
+    let back = r.read_string();
+    let seven = r.read_uint();
+    let too_long = s.len() >= 4096;
+    vnd_cover(521);
+    // either the round trip is exact, or the failure is visible on one of the two sides
+    vnd_check_kf(521, (back == s && seven == 7 && !r.has_error()) || w.has_error(), KF_STR_4096, too_long);
+    vnd_obs(1, back.len() as u64);
+    vnd_obs(2, seven);
+}
+
+const INTS: [i64; 8] = [0, 1, -1, 9, 10, i64::MAX, i64::MIN, -1234567890123];
+
+fn data_same(a: &Data, b: &Data) -> bool {
+    match (a, b) {
+        (Data::Integer(x), Data::Integer(y)) => x == y,
+        (Data::Double(x), Data::Double(y)) => x.to_bits() == y.to_bits() || (x.is_nan() && y.is_nan()),
+        (Data::String(x), Data::String(y)) => x == y,
+        (Data::Boolean(x), Data::Boolean(y)) => x == y,
+        (Data::Null(), Data::Null()) => true,
+        (Data::None(), Data::None()) => true,
+        (Data::Error(x), Data::Error(y)) => x == y,
+        (Data::Source(x), Data::Source(y)) => x.source == y.source && x.source_id == y.source_id,
+        (Data::Array(x), Data::Array(y)) => {
+            if x.len() != y.len() { return false; }
+            let mut i = 0;
+            while i < x.len() {
+                let l = x[i].lock().unwrap();
+                let r = y[i].lock().unwrap();
+                if !data_same(&l, &r) { return false; }
+                i += 1;
+            }
+            true
+        }
+        (Data::Map(x), Data::Map(y)) => {
+            if x.len() != y.len() { return false; }
+            for (k, v) in x {
+                match y.get(k) {
+                    None => return false,
+                    Some(o) => {
+                        let l = v.lock().unwrap();
+                        let r = o.lock().unwrap();
+                        if !data_same(&l, &r) { return false; }
+                    }
+                }
+            }
+            true
+        }
+        _ => false,
+    }
+}
+
+fn mk_leaf(kind: u32, tagbase: u32) -> Data {
+    match kind {
+        0 => Data::Null(),
+        1 => Data::Integer(INTS[vnd_range(0, 7, tagbase + 1) as usize]),
+        2 => {
+            let k = vnd_range(0, 5, tagbase + 2);
+            Data::Double(if k == 0 { 0.0 } else if k == 1 { -1.5 } else if k == 2 { 1e21 } else if k == 3 { 1.0e-7 } else if k == 4 { f64::INFINITY } else { 123456789.125 })
+        }
+        3 => { let c = vnd_char(tagbase + 3); vnd_assume((c as u32) < 0x80); let mut s = String::new(); s.push(c); s.push('\u{e9}'); Data::String(s) }
+        4 => Data::Boolean(vnd_bool(tagbase + 4)),
+        7 => Data::Error("e\u{20ac}".to_string()),
+        8 => Data::Source(SourceCode::new("a + 1", vnd_u32(tagbase + 5) as usize)),
+        _ => Data::None(),
+    }
+}
+
+/// every Data variant, nesting depth <= 2 (array of leaf + map), symbolic scalars where the text encoding allows
+pub fn h_c05_data() {
+    let kind = vnd_range(0, 9, 1);
+    let d = if kind == 5 {
+        let k1 = vnd_range(0, 4, 2);
+        let inner = Data::Array(vec![create_data_arc(mk_leaf(k1, 10))]);
+        Data::Array(vec![create_data_arc(mk_leaf(4, 20)), create_data_arc(inner)])
+    } else if kind == 6 {
+        let mut m = HashMap::new();
+        m.insert("k1".to_string(), create_data_arc(mk_leaf(vnd_range(0, 4, 3), 30)));
+        m.insert("k\u{e9}".to_string(), create_data_arc(Data::Array(vec![])));
+        Data::Map(m)
+    } else {
+        mk_leaf(kind, 40)
+    };
+    let mut w = DefaultProtocolWriter::new(Vec::<u8>::new());
+    w.write_data(&d);
+    w.write_uint(7);
+    vnd_check(531, !w.has_error());
+    let buf: Vec<u8> = w.get_writer().clone();
+    let mut r = DefaultProtocolReader::new(&buf[..]);
+    let back = r.read_data();
+    let seven = r.read_uint();
+    vnd_check(532, !r.has_error() && seven == 7);
+    vnd_cover(533);
+    vnd_check(533, data_same(&d, &back));
+    vnd_obs(1, buf.len() as u64);
+}
+
+fn roundtrip(fsm: &Fsm) -> (Result<Box<Fsm>, String>, bool, usize) {
+    let mut w: FsmWriter<Vec<u8>> = FsmWriter::new(Box::new(DefaultProtocolWriter::new(Vec::new())));
+    w.write(fsm);
+    w.close();
+    let werr = w.writer.has_error();
+    let buf: Vec<u8> = w.get_writer().clone();
+    let n = buf.len();
+    let r = Box::new(DefaultProtocolReader::new(&buf[..]));
+    let mut fr = FsmReader::new(r);
+    (fr.read(), werr, n)
+}
+
+fn mk_state(id: u32, parent: u32, children: &[u32]) -> State {
+    let mut s = State::new("");
+    s.id = id;
+    s.doc_id = id;
+    s.parent = parent;
+    s.states = children.to_vec();
+    s
+}
+
+fn params_same(a: &Option<Vec<Parameter>>, b: &Option<Vec<Parameter>>) -> bool {
+    match (a, b) {
+        (None, None) => true,
+        (Some(x), Some(y)) => {
+            if x.len() != y.len() { return false; }
+            let mut i = 0;
+            while i < x.len() { if x[i].name != y[i].name || x[i].expr != y[i].expr || x[i].location != y[i].location { return false; } i += 1; }
+            true
+        }
+        _ => false,
+    }
+}
+
+fn cc_same(a: &Option<CommonContent>, b: &Option<CommonContent>) -> bool {
+    match (a, b) {
+        (None, None) => true,
+        (Some(x), Some(y)) => x.content == y.content && x.content_expr == y.content_expr,
+        _ => false,
+    }
+}
+
+/// state record: ids of any magnitude, every flag combination, child / onentry / onexit / history lists, donedata, data map
+pub fn h_c05_state() {
+    let mut fsm = Fsm::new();
+    fsm.name = "m\u{e9}".to_string();
+    fsm.datamodel = "rfsm-expression".to_string();
+    // group 0: identifiers of any magnitude, fixed flags; group 1: every flag / list combination, fixed identifiers
+    let group = vnd_range(0, 1, 20);
+    fsm.binding = if vnd_bool(1) { BindingType::Late } else { BindingType::Early };
+    fsm.pseudo_root = 1;
+    fsm.script = if group == 1 { vnd_range(0, 5000, 2) } else { 3 };
+    let mut s = State::new("s\u{20ac}1");
+    s.id = if group == 0 { vnd_u32(3) } else { 1 };
+    s.doc_id = if group == 0 { vnd_u32(4) } else { 2 };
+    s.parent = if group == 0 { vnd_range(0, 70000, 5) } else { 0 };
+    let flags_sym = group == 1;
+    s.is_parallel = if flags_sym { vnd_bool(6) } else { false };
+    s.is_final = if flags_sym { vnd_bool(7) } else { true };
+    let ht = if flags_sym { vnd_range(0, 2, 8) } else { 1 };
+    s.history_type = if ht == 1 { HistoryType::Shallow } else if ht == 2 { HistoryType::Deep } else { HistoryType::None };
+    if !flags_sym || vnd_bool(9) { s.states.push(2); s.states.push(if group == 0 { vnd_range(3, 5000, 10) } else { 4 }); s.initial = if group == 0 { vnd_u32(11) } else { 12 }; }
+    if !flags_sym || vnd_bool(12) { s.onentry.push(100); s.onentry.push(101); }
+    if flags_sym && vnd_bool(13) { s.onexit.push(200); }
+    if flags_sym && vnd_bool(14) { s.history.push(9); }
+    s.transitions.push(40);
+    s.transitions.push(41);
+    let dd = if flags_sym { vnd_range(0, 2, 15) } else { 0 };
+    if dd >= 1 {
+        let mut d = DoneData::new();
+        if dd == 2 {
+            d.content = Some(CommonContent { content: Some("c".to_string()), content_expr: None });
+        } else {
+            let mut p = Parameter::new();
+            p.name = "n".to_string(); p.expr = "1+1".to_string(); p.location = "".to_string();
+            d.params = Some(vec![p]);
+        }
+        s.donedata = Some(d);
+    }
+    if flags_sym && vnd_bool(16) { s.data.insert("x".to_string(), create_data_arc(Data::Integer(5))); s.data.insert("y".to_string(), create_data_arc(Data::Source(SourceCode::new("[1,2]", 3)))); }
+    let (sid, sdoc, sparent, spar, sfin, sinit, nchild) = (s.id, s.doc_id, s.parent, s.is_parallel, s.is_final, s.initial, s.states.len());
+    let (nentry, nexit, nhist, ndata) = (s.onentry.len(), s.onexit.len(), s.history.size(), s.data.len());
+    let child1 = if nchild > 1 { s.states[1] } else { 0 };
+    let ddc = s.donedata.clone();
+    fsm.states.push(s);
+    let (res, werr, _n) = roundtrip(&fsm);
+    vnd_check(541, !werr && res.is_ok());
+    let f2 = res.unwrap();
+    vnd_check(542, f2.name == fsm.name && f2.datamodel == fsm.datamodel && f2.binding == fsm.binding && f2.pseudo_root == 1 && f2.script == fsm.script);
+    vnd_check(543, f2.states.len() == 1);
+    let t = &f2.states[0];
+    vnd_check(544, t.id == sid && t.doc_id == sdoc && t.parent == sparent && t.name == "s\u{20ac}1");
+    vnd_check(545, t.is_parallel == spar && t.is_final == sfin && t.history_type.ordinal() as u32 == ht);
+    vnd_check(546, t.states.len() == nchild && (nchild == 0 || (t.initial == sinit && t.states[0] == 2 && t.states[1] == child1)));
+    vnd_check(547, t.onentry.len() == nentry && t.onexit.len() == nexit && t.history.size() == nhist && (nentry == 0 || (t.onentry[0] == 100 && t.onentry[1] == 101)) && (nexit == 0 || t.onexit[0] == 200));
+    vnd_check(548, t.transitions.size() == 2 && *t.transitions.head() == 40);
+    vnd_cover(549);
+    let dd_ok = match (&ddc, &t.donedata) {
+        (None, None) => true,
+        (Some(a), Some(b)) => cc_same(&a.content, &b.content) && params_same(&a.params, &b.params),
+        _ => false,
+    };
+    vnd_check(549, dd_ok);
+    let data_ok = t.data.len() == ndata && (ndata == 0 || (data_same(&t.data.get("x").unwrap().lock().unwrap(), &Data::Integer(5)) && data_same(&t.data.get("y").unwrap().lock().unwrap(), &Data::Source(SourceCode::new("[1,2]", 3)))));
+    vnd_check(550, data_ok);
+    vnd_obs(1, t.id as u64);
+}
+
+/// transition records: ids, source, 0..2 targets, events, type/wildcard/cond/content flag combinations; two transitions in the hash map
+pub fn h_c05_transition() {
+    let mut fsm = Fsm::new();
+    fsm.pseudo_root = 1;
+    fsm.states.push(mk_state(1, 0, &[]));
+    let mut t = Transition::new();
+    // group 0: identifiers of any magnitude with fixed flags; group 1: every list-length / flag combination with small identifiers
+    let group = vnd_range(0, 1, 20);
+    t.id = if group == 0 { vnd_u32(1) } else { vnd_range(8, 20, 1) };
+    t.doc_id = if group == 0 { vnd_u32(2) } else { 3 };
+    t.source = if group == 0 { vnd_range(0, 70000, 3) } else { 2 };
+    let nt = if group == 1 { vnd_range(0, 2, 4) } else { 2 };
+    if nt >= 1 { t.target.push(if group == 0 { vnd_u32(5) } else { 4 }); }
+    if nt >= 2 { t.target.push(17); }
+    let ne = if group == 1 { vnd_range(0, 2, 6) } else { 1 };
+    if ne >= 1 { t.events.push("a.b".to_string()); }
+    if ne >= 2 { t.events.push("\u{e9}v".to_string()); }
+    t.transition_type = if group == 1 && vnd_bool(7) { TransitionType::Internal } else { TransitionType::External };
+    t.wildcard = group == 1 && vnd_bool(8);
+    if group == 0 || vnd_bool(9) { t.cond = Data::Source(SourceCode::new("x > 1", 12)); }
+    if group == 0 || vnd_bool(10) { t.content = if group == 0 { vnd_u32(11) } else { 9 }; }
+    vnd_assume(t.content != 0 || group == 1);
+    let (tid, tdoc, tsrc, ttype, twild, tcont, tcond) = (t.id, t.doc_id, t.source, t.transition_type.ordinal(), t.wildcard, t.content, t.cond.clone());
+    let tgt0 = if nt >= 1 { t.target[0] } else { 0 };
+    fsm.transitions.insert(t.id, t);
+    let mut t2 = Transition::new();
+    t2.id = 7; t2.doc_id = 8; t2.source = 1;
+    vnd_assume(tid != 7);
+    fsm.transitions.insert(7, t2);
+    let (res, werr, _n) = roundtrip(&fsm);
+    vnd_check(561, !werr && res.is_ok());
+    let f2 = res.unwrap();
+    vnd_check(562, f2.transitions.len() == 2 && f2.transitions.contains_key(&tid) && f2.transitions.contains_key(&7));
+    let b = f2.transitions.get(&tid).unwrap();
+    vnd_check(563, b.id == tid && b.doc_id == tdoc && b.source == tsrc);
+    vnd_check(564, b.target.len() == nt as usize && (nt < 1 || b.target[0] == tgt0) && (nt < 2 || b.target[1] == 17));
+    vnd_check(565, b.events.len() == ne as usize && (ne < 1 || b.events[0] == "a.b") && (ne < 2 || b.events[1] == "\u{e9}v"));
+    vnd_cover(566);
+    vnd_check(566, b.transition_type.ordinal() == ttype && b.wildcard == twild && b.content == tcont);
+    vnd_check(567, data_same(&b.cond, &tcond));
+    let c = f2.transitions.get(&7).unwrap();
+    vnd_check(568, c.id == 7 && c.doc_id == 8 && c.source == 1 && c.target.len() == 0 && c.content == 0);
+    vnd_obs(1, b.id as u64);
+}
+
+fn as_t<T: 'static>(ec: &Box<dyn ExecutableContent>) -> Option<&T> {
+    ec.as_ref().as_any().downcast_ref::<T>()
+}
+
+/// executable content of every kind with symbolic ids, in two blocks
+pub fn h_c05_content() {
+    let mut fsm = Fsm::new();
+    fsm.pseudo_root = 1;
+    fsm.states.push(mk_state(1, 0, &[]));
+    let kind = vnd_range(0, 8, 1);
+    let id1 = vnd_u32(2);
+    let x = vnd_u32(3);
+    let mut block: Vec<Box<dyn ExecutableContent>> = Vec::new();
+    match kind {
+        0 => { let mut e = If::new(Data::Source(SourceCode::new("c", 4))); e.content = x; e.else_content = vnd_range(0, 9, 4); block.push(Box::new(e)); }
+        1 => { let mut e = Expression::new(); e.content = Data::Source(SourceCode::new("a = 1", x as usize)); block.push(Box::new(e)); }
+        2 => { let mut e = Script::new(); e.content.push(x); e.content.push(3); block.push(Box::new(e)); }
+        3 => { block.push(Box::new(Log::new(&Some(&"lbl".to_string()), Data::Source(SourceCode::new("'m'", 2))))); }
+        4 => { let mut e = ForEach::new(); e.content = x; e.index = "i".to_string(); e.item = "it".to_string(); e.array = Data::Source(SourceCode::new("arr", 9)); block.push(Box::new(e)); }
+        5 => {
+            let mut e = SendParameters::new();
+            e.name = "sid".to_string(); e.name_location = "loc".to_string();
+            e.event = Data::String("ev".to_string()); e.event_expr = Data::None();
+            e.target = Data::String("#_internal".to_string()); e.target_expr = Data::Source(SourceCode::new("t", 1));
+            e.type_value = Data::String("scxml".to_string()); e.type_expr = Data::None();
+            e.delay_ms = vnd_u64(5); e.delay_expr = Data::Source(SourceCode::new("'1s'", 2));
+            e.name_list.push("n1".to_string());
+            if vnd_bool(6) { e.content = Some(CommonContent { content: None, content_expr: Some("1".to_string()) }); }
+            if vnd_bool(7) { let mut p = Parameter::new(); p.name = "p".to_string(); p.expr = "e".to_string(); p.location = "l".to_string(); e.params = Some(vec![p]); }
+            block.push(Box::new(e));
+        }
+        6 => { let mut e = Raise::new(); e.event = "r.e".to_string(); block.push(Box::new(e)); }
+        7 => { let mut e = Cancel::new(); e.send_id = "s1".to_string(); e.send_id_expr = Data::Source(SourceCode::new("x", 1)); block.push(Box::new(e)); }
+        _ => { let mut e = Assign::new(); e.location = Data::Source(SourceCode::new("a", 1)); e.expr = Data::Source(SourceCode::new("2", 2)); block.push(Box::new(e)); }
+    }
+    let mut e2 = Raise::new(); e2.event = "second".to_string();
+    block.push(Box::new(e2));
+    fsm.executableContent.insert(id1, block);
+    vnd_assume(id1 != 77);
+    let mut b2: Vec<Box<dyn ExecutableContent>> = Vec::new();
+    let mut e3 = Raise::new(); e3.event = "other".to_string();
+    b2.push(Box::new(e3));
+    fsm.executableContent.insert(77, b2);
+    let (res, werr, _n) = roundtrip(&fsm);
+    vnd_check(571, !werr && res.is_ok());
+    let f2 = res.unwrap();
+    vnd_check(572, f2.executableContent.len() == 2 && f2.executableContent.contains_key(&id1) && f2.executableContent.contains_key(&77));
+    let a = f2.executableContent.get(&id1).unwrap();
+    let o = fsm.executableContent.get(&id1).unwrap();
+    vnd_check(573, a.len() == 2 && a[0].get_type() as u32 == kind && a[1].get_type() == TYPE_RAISE);
+    vnd_cover(574);
+    let same = match kind {
+        0 => { let (p, q) = (as_t::<If>(&a[0]).unwrap(), as_t::<If>(&o[0]).unwrap()); p.content == q.content && p.else_content == q.else_content && data_same(&p.condition, &q.condition) }
+        1 => { let (p, q) = (as_t::<Expression>(&a[0]).unwrap(), as_t::<Expression>(&o[0]).unwrap()); data_same(&p.content, &q.content) }
+        2 => { let (p, q) = (as_t::<Script>(&a[0]).unwrap(), as_t::<Script>(&o[0]).unwrap()); p.content == q.content }
+        3 => { let (p, q) = (as_t::<Log>(&a[0]).unwrap(), as_t::<Log>(&o[0]).unwrap()); p.label == q.label && data_same(&p.expression, &q.expression) }
+        4 => { let (p, q) = (as_t::<ForEach>(&a[0]).unwrap(), as_t::<ForEach>(&o[0]).unwrap()); p.content == q.content && p.index == q.index && p.item == q.item && data_same(&p.array, &q.array) }
+        5 => {
+            let (p, q) = (as_t::<SendParameters>(&a[0]).unwrap(), as_t::<SendParameters>(&o[0]).unwrap());
+            p.name == q.name && p.name_location == q.name_location && data_same(&p.event, &q.event) && data_same(&p.event_expr, &q.event_expr)
+                && data_same(&p.target, &q.target) && data_same(&p.target_expr, &q.target_expr) && data_same(&p.type_value, &q.type_value)
+                && data_same(&p.type_expr, &q.type_expr) && p.delay_ms == q.delay_ms && data_same(&p.delay_expr, &q.delay_expr)
+                && p.name_list == q.name_list && params_same(&p.params, &q.params) && cc_same(&p.content, &q.content)
+        }
+        6 => { let (p, q) = (as_t::<Raise>(&a[0]).unwrap(), as_t::<Raise>(&o[0]).unwrap()); p.event == q.event }
+        7 => { let (p, q) = (as_t::<Cancel>(&a[0]).unwrap(), as_t::<Cancel>(&o[0]).unwrap()); p.send_id == q.send_id && data_same(&p.send_id_expr, &q.send_id_expr) }
+        _ => { let (p, q) = (as_t::<Assign>(&a[0]).unwrap(), as_t::<Assign>(&o[0]).unwrap()); data_same(&p.location, &q.location) && data_same(&p.expr, &q.expr) }
+    };
+    vnd_check(574, same);
+    let r2 = as_t::<Raise>(&a[1]).unwrap();
+    let b = f2.executableContent.get(&77).unwrap();
+    vnd_check(575, r2.event == "second" && b.len() == 1 && as_t::<Raise>(&b[0]).unwrap().event == "other");
+    vnd_obs(1, a[0].get_type() as u64);
+}
+
+/// invoke records
+pub fn h_c05_invoke() {
+    let mut fsm = Fsm::new();
+    fsm.pseudo_root = 1;
+    let mut s = mk_state(1, 0, &[]);
+    s.name = "st".to_string();
+    let mut inv = Invoke::new();
+    inv.doc_id = vnd_u32(1);
+    let with_id = vnd_bool(2);
+    if with_id { inv.invoke_id = "iv".to_string(); }
+    inv.parent_state_name = "st".to_string();
+    inv.autoforward = vnd_bool(3);
+    inv.finalize = vnd_u32(4);
+    inv.external_id_location = "idl".to_string();
+    if vnd_bool(5) { inv.src = Data::String("file.scxml".to_string()); } else { inv.src_expr = Data::Source(SourceCode::new("s", 3)); }
+    inv.type_name = Data::String("scxml".to_string());
+    inv.type_expr = Data::Source(SourceCode::new("t", 4));
+    if vnd_bool(6) { inv.content = Some(CommonContent { content: Some("<scxml/>".to_string()), content_expr: None }); }
+    if vnd_bool(7) { let mut p = Parameter::new(); p.name = "p".to_string(); p.expr = "1".to_string(); inv.params = Some(vec![p]); }
+    inv.name_list.push("a".to_string());
+    inv.name_list.push("b".to_string());
+    let orig = inv.clone();
+    s.invoke.push(inv);
+    let mut inv2 = Invoke::new();
+    inv2.doc_id = 9; inv2.invoke_id = "second".to_string();
+    s.invoke.push(inv2);
+    fsm.states.push(s);
+    let (res, werr, _n) = roundtrip(&fsm);
+    vnd_check(581, !werr && res.is_ok());
+    let f2 = res.unwrap();
+    vnd_check(582, f2.states.len() == 1 && f2.states[0].invoke.size() == 2);
+    let b = f2.states[0].invoke.head();
+    vnd_check(583, b.doc_id == orig.doc_id && b.invoke_id == orig.invoke_id && b.autoforward == orig.autoforward && b.finalize == orig.finalize && b.external_id_location == orig.external_id_location);
+    vnd_check(584, data_same(&b.src, &orig.src) && data_same(&b.src_expr, &orig.src_expr) && data_same(&b.type_name, &orig.type_name) && data_same(&b.type_expr, &orig.type_expr));
+    vnd_cover(585);
+    vnd_check(585, cc_same(&b.content, &orig.content) && params_same(&b.params, &orig.params) && b.name_list == orig.name_list);
+    // the generated-id prefix is only needed (and only persisted) when no id is given
+    vnd_check(586, with_id || b.parent_state_name == "st");
+    vnd_obs(1, b.doc_id as u64);
+}
+
+// ------------------------------------------------------------------------------------------------ C18
+fn sample_model(variant: u32) -> Fsm {
+    let mut fsm = Fsm::new();
+    fsm.pseudo_root = 1;
+    fsm.name = "m".to_string();
+    let mut s1 = mk_state(1, 0, &[2, 3]);
+    s1.initial = 11;
+    s1.name = "root".to_string();
+    let mut s2 = mk_state(2, 1, &[]);
+    s2.name = "a".to_string();
+    s2.onentry.push(100);
+    s2.transitions.push(12);
+    let mut s3 = mk_state(3, 1, &[]);
+    s3.name = "b".to_string();
+    s3.is_final = true;
+    if variant >= 1 {
+        let mut d = DoneData::new();
+        d.content = Some(CommonContent { content: Some("x".to_string()), content_expr: None });
+        s3.donedata = Some(d);
+        s2.data.insert("v".to_string(), create_data_arc(Data::Integer(1)));
+    }
+    if variant >= 2 {
+        let mut inv = Invoke::new();
+        inv.doc_id = 5; inv.invoke_id = "i".to_string(); inv.src = Data::String("x.scxml".to_string());
+        s2.invoke.push(inv);
+        s2.onexit.push(101);
+    }
+    fsm.states.push(s1);
+    fsm.states.push(s2);
+    fsm.states.push(s3);
+    let mut t = Transition::new(); t.id = 11; t.doc_id = 1; t.source = 1; t.target.push(2);
+    fsm.transitions.insert(11, t);
+    let mut t = Transition::new(); t.id = 12; t.doc_id = 2; t.source = 2; t.target.push(3); t.events.push("go".to_string()); t.cond = Data::Source(SourceCode::new("true", 1)); t.content = 102;
+    fsm.transitions.insert(12, t);
+    let mut b: Vec<Box<dyn ExecutableContent>> = Vec::new();
+    let mut r = Raise::new(); r.event = "e1".to_string(); b.push(Box::new(r));
+    b.push(Box::new(Log::new(&Some(&"l".to_string()), Data::Source(SourceCode::new("'x'", 2)))));
+    fsm.executableContent.insert(100, b);
+    if variant >= 2 {
+        let mut b: Vec<Box<dyn ExecutableContent>> = Vec::new();
+        let mut e = SendParameters::new(); e.event = Data::String("ev".to_string()); e.delay_ms = 1000; b.push(Box::new(e));
+        let mut e = If::new(Data::Source(SourceCode::new("c", 4))); e.content = 100; b.push(Box::new(e));
+        fsm.executableContent.insert(101, b);
+        let mut b: Vec<Box<dyn ExecutableContent>> = Vec::new();
+        let mut e = Assign::new(); e.location = Data::Source(SourceCode::new("v", 1)); e.expr = Data::Source(SourceCode::new("2", 2)); b.push(Box::new(e));
+        fsm.executableContent.insert(102, b);
+    }
+    fsm
+}
+
+/// every prefix of a written image must be rejected (Err), never accepted and never panic
+pub fn h_c18_trunc() {
+    let variant = vnd_range(0, 2, 1);
+    let fsm = sample_model(variant);
+    let mut w: FsmWriter<Vec<u8>> = FsmWriter::new(Box::new(DefaultProtocolWriter::new(Vec::new())));
+    w.write(&fsm);
+    w.close();
+    let buf: Vec<u8> = w.get_writer().clone();
+    vnd_assume(buf.len() >= 2);
+    let cut = vnd_range(0, buf.len() as u32 - 1, 2) as usize;
+    let r = Box::new(DefaultProtocolReader::new(&buf[..cut]));
+    let mut fr = FsmReader::new(r);
+    let res = fr.read();
+    vnd_cover(1801);
+    vnd_check(1801, res.is_err());
+    // the complete image is accepted
+    let r = Box::new(DefaultProtocolReader::new(&buf[..]));
+    let mut fr = FsmReader::new(r);
+    vnd_check(1802, fr.read().is_ok());
+    vnd_obs(1, buf.len() as u64);
+}
+
+/// truncated primitive stream: the reader's error state is set and stays set; no panic
+pub fn h_c18_trunc_prim() {
+    let mut w = DefaultProtocolWriter::new(Vec::<u8>::new());
+    w.write_str("hello world, this is longer than fifteen");
+    w.write_uint(vnd_u64(1));
+    w.write_data(&Data::Array(vec![create_data_arc(Data::Integer(12345)), create_data_arc(Data::String("x".to_string()))]));
+    w.write_boolean(true);
+    let buf: Vec<u8> = w.get_writer().clone();
+    let cut = vnd_range(0, buf.len() as u32 - 1, 2) as usize;
+    let mut r = DefaultProtocolReader::new(&buf[..cut]);
+    let _s = r.read_string();
+    let _u = r.read_uint();
+    let _d = r.read_data();
+    let _b = r.read_boolean();
+    vnd_cover(1811);
+    vnd_check(1811, r.has_error());
+}
+
+/// A byte sink with fault injection: short writes (accepts 1..=len bytes per call) and a failure at a chosen call.
+pub struct VSink {
+    pub buf: Vec<u8>,
+    pub calls: u32,
+    pub fail_at: u32,
+    pub short: bool,
+    /// short writes are injected for 6 consecutive eligible calls starting at this call index
+    pub short_from: u32,
+    pub failed: bool,
+}
+
+impl std::io::Write for VSink {
+    fn write(&mut self, b: &[u8]) -> std::io::Result<usize> {
+        let c = self.calls;
+        self.calls += 1;
+        if c == self.fail_at {
+            self.failed = true;
+            return Err(std::io::Error::new(std::io::ErrorKind::Other, "injected"));
+        }
+        let mut k = b.len();
+        if self.short && b.len() > 1 && c >= self.short_from && c < self.short_from + 6 {
+            // engine M: symbolic accepted count; replay: the recorded value
+            k = vnd_range(1, b.len() as u32, 9000 + c) as usize;
+        }
+        let mut i = 0;
+        while i < k { self.buf.push(b[i]); i += 1; }
+        Ok(k)
+    }
+    fn flush(&mut self) -> std::io::Result<()> { Ok(()) }
+}
+
+/// short writes must not lose bytes; a failing write must be visible through has_error()
+pub fn h_c18_sink() {
+    let variant = vnd_range(0, 1, 1);
+    let fsm = sample_model(variant);
+    // reference image
+    let mut w0: FsmWriter<Vec<u8>> = FsmWriter::new(Box::new(DefaultProtocolWriter::new(Vec::new())));
+    w0.write(&fsm);
+    w0.close();
+    let reference: Vec<u8> = w0.get_writer().clone();
+    let short = vnd_bool(2);
+    let fail_at = if short { 0xffff_ffff } else { vnd_range(0, 60, 3) };
+    let short_from = if short { vnd_range(0, 3, 4) * 12 } else { 0 };
+    let sink = VSink { buf: Vec::new(), calls: 0, fail_at, short, short_from, failed: false };
+    let mut w: FsmWriter<VSink> = FsmWriter::new(Box::new(DefaultProtocolWriter::new(sink)));
+    w.write(&fsm);
+    w.close();
+    let err = w.writer.has_error();
+    let out = w.get_writer();
+    vnd_cover(1821);
+    if out.failed {
+        vnd_check(1821, err);
+    } else {
+        vnd_check(1822, !err && out.buf == reference);
+    }
+    // (the number of bytes emitted before an injected failure depends on hash-map iteration order: not an observable)
+    vnd_obs(1, if out.failed { 0 } else { out.buf.len() as u64 });
 }
